@@ -94,7 +94,10 @@ func (w *World) writerPaths(fn *ssa.Function) *writerInfo {
 			if !ok {
 				return true
 			}
-			sc := c.Call.StaticCallee()
+			// the function the call invokes on this path: static, or through a function value
+			// the path knows (`writeItem := e.WriteData` … `writeItem(x)` is the boundary
+			// e.WriteData(x), not a helper to step into)
+			sc := px.calleeOf(c, fr, st)
 			if sc == nil {
 				return true
 			}
@@ -103,12 +106,11 @@ func (w *World) writerPaths(fn *ssa.Function) *writerInfo {
 				return true
 			}
 			ev := pxEvent{Kind: kind, Call: c, Frame: fr, Env: st.env, Pos: w.instrPos(c)}
-			args := c.Call.Args
-			if len(args) > 0 {
+			// (operands in the order of the callee's parameters; a bound receiver is not an
+			// SSA value of this frame)
+			args, _ := px.callArgs(c, fr, st)
+			if sc.Signature.Recv() != nil && len(args) > 0 {
 				args = args[1:] // receiver
-			}
-			if sc.Signature.Recv() == nil {
-				args = c.Call.Args
 			}
 			if kind == "octets" && len(args) == 1 {
 				// variadic bytes: the octets are the stores into the varargs array
@@ -188,10 +190,19 @@ func (w *World) writerPaths(fn *ssa.Function) *writerInfo {
 							}
 							return false
 						}
-						if isCounter(bo.X) {
-							ev.Extra += "|bound=" + px.term(bo.Y, fr, st).Key()
-						} else if isCounter(bo.Y) {
-							ev.Extra += "|bound=" + px.term(bo.X, fr, st).Key()
+						// `size - i <= 0` is `size <= i` (a size and a counter are non-negative, the
+						// difference cannot overflow): the do-while spelling of the element loop
+						bx, by := bo.X, bo.Y
+						if zc, ok := by.(*ssa.Const); ok && zc.Value != nil && isIntZero(zc) {
+							if d, ok := bx.(*ssa.BinOp); ok && d.Op == token.SUB &&
+								((isCounter(d.Y) && isSizeValue(d.X, 0)) || (isCounter(d.X) && isSizeValue(d.Y, 0))) {
+								bx, by = d.X, d.Y
+							}
+						}
+						if isCounter(bx) {
+							ev.Extra += "|bound=" + px.term(by, fr, st).Key()
+						} else if isCounter(by) {
+							ev.Extra += "|bound=" + px.term(bx, fr, st).Key()
 						}
 					}
 				}
@@ -220,7 +231,9 @@ func (w *World) writerPaths(fn *ssa.Function) *writerInfo {
 							}
 							continue
 						}
-						if bset[sc] || reachesBoundary[sc] {
+						// (a method value called where it is made — `emit := e.writeBytes` — has the
+						// bound wrapper as its static callee: what counts is the method behind it)
+						if m := w.throughWrapper(sc); bset[sc] || reachesBoundary[sc] || bset[m] || reachesBoundary[m] {
 							return false
 						}
 						if w.inPkg(sc) && len(px.modFields(sc)) > 0 {
@@ -237,13 +250,55 @@ func (w *World) writerPaths(fn *ssa.Function) *writerInfo {
 			if reachesBoundary[callee] {
 				return true
 			}
+			// a function literal written in a function that is being explored is part of
+			// that function's body (`next := func() (item interface{}, more bool) {…}`
+			// driving the element loop: the position and the bound test live in it)
+			if callee.Parent() != nil && len(callee.Blocks) <= 40 {
+				for f := fr; f != nil; f = f.parent {
+					if f.fn == callee.Parent() {
+						return true
+					}
+				}
+			}
 			res := callee.Signature.Results()
 			if res.Len() == 0 || len(callee.Blocks) > 40 {
 				return false
 			}
+			// a text transformer `func(string) string` (the case helper of the field names,
+			// `lowerFirst(name) string` as `lowerName(name) (string, error)` before it) chooses
+			// no header form: it stays a recorded call, so that the rules can say which
+			// function produced a name and check that function on its own (casehelper.go)
+			if prm := callee.Signature.Params(); callee.Signature.Recv() == nil && prm.Len() == 1 && res.Len() == 1 && isStringType(prm.At(0).Type()) && isStringType(res.At(0).Type()) {
+				return false
+			}
+			scalar := func(t types.Type) bool {
+				if _, _, isInt := intTypeInfo(w, t); isInt {
+					return true
+				}
+				b, ok := t.Underlying().(*types.Basic)
+				return ok && b.Info()&(types.IsBoolean|types.IsString) != 0
+			}
 			for i := 0; i < res.Len(); i++ {
-				if _, _, isInt := intTypeInfo(w, res.At(i).Type()); !isInt {
-					if b, ok := res.At(i).Type().Underlying().(*types.Basic); !ok || b.Info()&(types.IsBoolean|types.IsString) == 0 {
+				if scalar(res.At(i).Type()) {
+					continue
+				}
+				// a `(value, ok)` accessor (`dateValue(v) (time.Time, bool)`): the flag decides
+				// the caller's branch, and what the accessor tested (a dynamic type) is part
+				// of the path — stepped into whatever the type of the value
+				if i == 0 && res.Len() == 2 {
+					if b2, ok2 := res.At(1).Type().Underlying().(*types.Basic); ok2 && b2.Info()&types.IsBoolean != 0 {
+						return true
+					}
+				}
+				// the chosen form handed back as a small struct of such scalars
+				// (`listHeader{tag, typeName, hasType, hasLen}`): its components are
+				// the same choices
+				stt, ok := res.At(i).Type().Underlying().(*types.Struct)
+				if !ok || stt.NumFields() == 0 || stt.NumFields() > 8 {
+					return false
+				}
+				for j := 0; j < stt.NumFields(); j++ {
+					if !scalar(stt.Field(j).Type()) {
 						return false
 					}
 				}
@@ -293,4 +348,10 @@ func encodeKindOf(bounds map[*ssa.Function]string, o *Term) string {
 		return strings.TrimPrefix(k, "encode:")
 	}
 	return ""
+}
+
+// isIntZero: the constant is the integer 0.
+func isIntZero(c *ssa.Const) bool {
+	b, ok := c.Type().Underlying().(*types.Basic)
+	return ok && b.Info()&types.IsInteger != 0 && c.Value != nil && c.Int64() == 0
 }
